@@ -35,6 +35,11 @@ def runs(tier):
     out.append(dict(name='big', nshards=4, constants=dict(base, MaxD=5, DimsR={4}, DimsC={1}, RanksS={4}, Lean=True, Scenarios={'same'},
                                                           Ops={'Add', 'Sub', 'Full', 'Conj', 'SMul', 'Transpose', 'Copy', 'Elements'},
                                                           KindPairs={('complex', 'real')})))
+    # stale-state histories: a sweep, an overwriting call that changes the object, then an observer
+    out.append(dict(name='stale3', constants=dict(base, MaxD=3, DimsR={2}, DimsC={1, 2}, RanksS={2}, Scenarios={'single'}, MaxDepth=3,
+                                                  OWs={True}, Lean=True,
+                                                  OpsAt=[{'OrthoLeft', 'OrthoRight', 'Ortho'}, {'RankTranspose', 'Transpose', 'Conj', 'SMul'},
+                                                         {'Norm2', 'Full', 'Matricize'}], KindPairs={('complex', 'complex')})))
     out.append(dict(name='norm1', constants=dict(base, Scenarios={'single'}, Ops={'Norm1', 'Norm2'}, KindPairs={('pos', 'pos')},
                                                  Seeds={1, 2})))
     out.append(dict(name='lin', constants=dict(base, RanksS={1, 2}, Scenarios={'lin'}, Ops={'Residual'},
